@@ -77,6 +77,7 @@ type Features struct {
 	ValueTypeID    bool // value types with a plain (non Node) id field
 	ListOfLists    bool
 	WeirdIDs       bool // ids with separators : # . and spaces
+	EmptyAbstract  bool // an interface without implementers and a root field returning it
 }
 
 type World struct {
@@ -335,6 +336,10 @@ func Generate(t *tape.Tape, feat Features, maxServices int) *World {
 			f.Args = g.args()
 			w.Subscr = append(w.Subscr, f)
 		}
+	}
+	if feat.EmptyAbstract {
+		add(&TypeDef{Name: "Lonely", Kind: "interface"})
+		w.Query = append(w.Query, &FieldDef{Name: "qLonely", Owner: t.Choose(w.K), Type: TypeRef{Name: "Lonely", List: t.Bool(1, 2)}})
 	}
 	w.dropIdleServices()
 	for i := 0; i < w.K; i++ {
